@@ -1,7 +1,5 @@
 //! Traits and implementations related to interpolation of animatable values.
 
-use num_traits::FromPrimitive;
-
 /// Trait for a type that supports the standard `lerp` (**l**inear int**erp**olation) operation.
 ///
 /// Linear interpolation refers mathematically to computing the `y` value of the straight line
@@ -20,10 +18,11 @@ pub trait Lerp {
     /// Computes the linear interpolation between this value (`y0`) and a second (`y1`) value of the
     /// same type, at normalized (from 0 to 1) position `x`.
     ///
-    /// # Panics
+    /// # Overflow
     ///
-    /// The default implementation for primitives will panic if `self` or `y1` are too large to fit
-    /// in an `f32`, or if the resulting interpolated value is out of bounds for the `y` type.
+    /// The default implementation for primitives does not panic. If the interpolated value is out
+    /// of bounds for the `y` type, which can happen when `x` is outside of the `0..=1` range (e.g.
+    /// with an overshooting easing like `OutBack`), the result saturates at the bounds of the type.
     ///
     /// # Example
     ///
@@ -56,8 +55,8 @@ macro_rules! impl_lerp_for_integer_types {
         $( impl Lerp for $t {
             fn lerp(&self, y1: &Self, x: f32) -> Self {
                 let result_f32 = (*self as f32).lerp(&(*y1 as f32), x);
-                Self::from_f32(result_f32.round())
-                    .expect("Converted value was outside the valid range for this type.")
+                // Float-to-integer `as` casts saturate at the bounds of the integer type.
+                result_f32.round() as Self
             }
         }) *
     }
